@@ -69,7 +69,8 @@ func runPathSession(name []byte, up int, rpath []B) pathEvent {
 	for _, d := range []string{cwd, filepath.Dir(cwd), filepath.Dir(filepath.Dir(cwd))} {
 		os.MkdirAll(filepath.Join(d, "a"), 0o755)
 		os.MkdirAll(filepath.Join(d, "b c"), 0o755)
-		for _, n := range []string{"x", "a/a", "a/b c", "b c/a"} {
+		os.MkdirAll(filepath.Join(d, sandboxPhone+"x"), 0o755) // sibling whose name starts with the phone
+		for _, n := range []string{"x", "a/a", "a/b c", "b c/a", sandboxPhone + "x/a"} {
 			os.WriteFile(filepath.Join(d, n), []byte("decoy"), 0o644)
 		}
 	}
@@ -208,6 +209,8 @@ func init() {
 				name = append([]byte("/"), name...)
 			case 2:
 				name = []byte(fmt.Sprintf("f%d.jpg", i))
+			case 3:
+				name = []byte(fmt.Sprintf("../%s%s", sandboxPhone, []string{".txt", "_bak/x", "x/a", "x"}[r.Intn(4)]))
 			}
 			if len(name) > 255 {
 				name = name[:255]
